@@ -480,6 +480,23 @@ def gen_program(rng, globals_, depth):
             comps.append(('L', fs, mk, ('L', p_, mk_call(('V', fs), [g.g_int(scope, 1)]),
                                         ('L', q_, mk_call(('V', fs), [g.g_int(scope, 1)]), use))))
         flavour = 'closures-from-one-expression'
+    elif r < 0.5 or (r < 0.53 and not any(t == 'dt' for t in scope.values())):
+        # a date/time VALUE held by a variable is re-read after a function returned a modified copy of it:
+        # adjust-dateTime-to-timezone (1 / 2 arguments, `()`), subtraction, timezone-from-dateTime on the same variable
+        src_dt = rng.choice([v for v, t in scope.items() if t == 'dt'] or [None])
+        x = g.pick_name(scope, avoid=() if src_dt is None else (src_dt,))   # `for $x in $x` is rejected by the parser
+        val = ('V', src_dt) if src_dt is not None and rng.random() < 0.5 else \
+            ('D', rng.randrange(-3 * 86400, 3 * 86400), rng.choice([None, rng.randrange(-24, 25) * 30, rng.randrange(-24, 25) * 30]))
+        target = rng.choice([('E',), ('E',), ('K', rng.randrange(-20, 21) * 1800), None])
+        adj = ('J', ('V', x)) if target is None else ('J2', ('V', x), target)
+        uses = [adj, ('V', x), ('Z', ('V', x)), ('M', ('V', x), ('V', x)), adj]
+        rng.shuffle(uses)
+        uses = uses[:rng.randrange(2, 5)]
+        if ('V', x) not in uses:
+            uses.append(('V', x))
+        body = mk_seq(uses)
+        comps.append(('L', x, val, body) if rng.random() < 0.5 else ('F', x, val, body))
+        flavour = 'value-reread'
     elif r < 0.54 and any(t == 'dt' for t in scope.values()):
         # fn:adjust-dateTime-to-timezone with a $timezone outside -14:00..+14:00 / not a whole number of minutes
         # (FODT0003), as a strict top-level component after other components
@@ -541,7 +558,7 @@ def gen_case(rng, quick=True):
                       'api': rng.choice(['token', 'selector', 'selector', 'evaluate']),
                       'root': rng.choice(['element', 'element', 'tree'])})
     return {'ast': ast, 'merge': rng.random() < 0.5, 'heap': heap, 'var_sets': var_sets, 'steps': steps,
-            'flavour': flavour}
+            'flavour': flavour, 'xsd': rng.choice(['1.0', '1.1']), 'match_cls': rng.random() < 0.67}
 
 
 def case_src(case) -> str:
@@ -697,9 +714,10 @@ def run_impl(case):
     ns = dict(NS)
     out = {'parse': 'ok', 'shape': '', 'steps': []}
     try:
-        parser = XPath31Parser(namespaces=ns)
+        xsd = case.get('xsd', '1.0')
+        parser = XPath31Parser(namespaces=ns, xsd_version=xsd)
         token = parser.parse(src)
-        sel = Selector(src, namespaces=ns, parser=XPath31Parser)
+        sel = Selector(src, namespaces=ns, parser=XPath31Parser, xsd_version=xsd)
         try:
             out['shape'] = token_shape(token)
         except Exception as e:  # noqa
@@ -707,7 +725,10 @@ def run_impl(case):
     except Exception as e:  # noqa
         out['parse'] = canon_error(e) + ':' + str(e)[-80:]
         return out
-    objs = [DateTime.fromstring(dt_text(l, z)) for l, z in case['heap']]
+    from elementpath.datatypes import DateTime10
+    # the caller's objects: of the class of the parser's XSD version (then no conversion copies them) or of the other one
+    dt_cls = (DateTime10 if xsd == '1.0' else DateTime) if case.get('match_cls', False) else (DateTime if xsd == '1.0' else DateTime10)
+    objs = [dt_cls.fromstring(dt_text(l, z)) for l, z in case['heap']]
     docs = {}
     var_dicts = {}
 
@@ -715,7 +736,7 @@ def run_impl(case):
         vs = {}
         for n, items in case['var_sets'][k].items():
             vals = [v if kind == 'i' else
-                    (objs[v] if shared else DateTime.fromstring(dt_text(*case['heap'][v]))) for kind, v in items]
+                    (objs[v] if shared else dt_cls.fromstring(dt_text(*case['heap'][v]))) for kind, v in items]
             vs[f'v{n}'] = vals[0] if len(vals) == 1 else vals
         return vs
 
@@ -764,9 +785,9 @@ def run_impl(case):
             froot = as_tree(froot)
         fvars = build_vars(s['vars'], shared=False)
         rec['fresh'] = guarded(lambda: elementpath.select(froot, src, namespaces=dict(NS), parser=XPath31Parser,
-                                                          variables=fvars, timezone=tz))
+                                                          variables=fvars, timezone=tz, xsd_version=xsd))
         fit = guarded(lambda: list(elementpath.iter_select(froot, src, namespaces=dict(NS), parser=XPath31Parser,
-                                                           variables=fvars, timezone=tz)))
+                                                           variables=fvars, timezone=tz, xsd_version=xsd)))
         if fit != rec['fresh'] and 'iter' not in rec:
             rec['iter'] = fit
         out['steps'].append(rec)
@@ -789,7 +810,7 @@ def public_case(case, upto=None):
     steps = case['steps'] if upto is None else case['steps'][:upto + 1]
     return {'xpath': case_src(case), 'expr_code': encode(case['ast']), 'heap': case['heap'],
             'var_sets': case['var_sets'], 'steps': steps, 'flavour': case.get('flavour', ''),
-            'merge': case['merge'], 'ast': case['ast']}
+            'merge': case['merge'], 'ast': case['ast'], 'xsd': case.get('xsd', '1.0'), 'match_cls': case.get('match_cls', False)}
 
 
 def _group_rss_mb(pgid: int) -> int:
@@ -871,6 +892,7 @@ def compare(run: Run, cases: list, stats=True) -> None:
             st.count(f'steps={len(case["steps"])}')
             st.count(f'shadowing-binders={min(shadow_depth(case["ast"], frozenset(case["var_sets"][0])), 4)}')
             st.count('multi-clause-syntax' if case['merge'] else 'nested-syntax')
+            st.count(f"xsd={case.get('xsd', '1.0')},caller-class-{'matches' if case.get('match_cls') else 'differs'}")
         if impl['parse'] != 'ok':
             run.disagree(Disagreement(public_case(case), impl['parse'], 'parsed', what='generated-expression-rejected',
                                       site='XPath31Parser.parse'))
@@ -1165,28 +1187,81 @@ def cache_histories(run: Run) -> None:
                     break
 
 
+def value_state(x):
+    """bit-level state of a date / time / duration value: class and every slot"""
+    slots = []
+    for c in type(x).__mro__:
+        for n in getattr(c, '__slots__', ()):
+            if n != '__dict__' and hasattr(x, n):
+                slots.append((n, repr(getattr(x, n))))
+    return (type(x).__name__, str(x), tuple(slots), repr(getattr(x, '__dict__', None)))
+
+
+# every function / operator that returns a MODIFIED COPY of (or a value derived from) a date / time / duration operand, with
+# the operand `$d` in every argument position; `$u` is a caller-owned xs:dayTimeDuration, `$y` an xs:yearMonthDuration
+OBJ_EXPRS_EXTRA = {
+    'dateTime': [
+        "(adjust-dateTime-to-timezone($d, ()), $d)", "(adjust-dateTime-to-timezone($d), $d, timezone-from-dateTime($d))",
+        "for $x in $d return (adjust-dateTime-to-timezone($x, ()), $x)", "let $x := $d return (adjust-dateTime-to-timezone($x, ()), string($x))",
+        "(adjust-dateTime-to-timezone($d, $u), $d)", "adjust-dateTime-to-timezone($d, timezone-from-dateTime($d))",
+        "($d + $u, $d)", "($u + $d, $d, $u)", "($d - $u, $d)", "($d + $y, $d, $y)", "($d - $y, $d)", "($d - $d, $d)",
+        "(xs:dateTime('2000-01-01T00:00:00Z') - $d, $d)", "(xs:date($d), xs:time($d), xs:dateTime($d), $d)",
+        "($d cast as xs:date, $d cast as xs:time, $d cast as xs:gYear, $d cast as xs:gMonthDay, $d)",
+        "(xs:dateTimeStamp(adjust-dateTime-to-timezone($d, xs:dayTimeDuration('PT0S'))), $d)",
+        "(adjust-dateTime-to-timezone(xs:dateTimeStamp(adjust-dateTime-to-timezone($d, xs:dayTimeDuration('PT1H'))), ()), $d)",
+        "(dateTime(xs:date($d), xs:time($d)), $d)", "(max(($d, $d + $u)), min(($d, $d - $u)), $d)", "(string($d), xs:string($d), $d)",
+        "(function($x) { adjust-dateTime-to-timezone($x, ()) }($d), $d)", "($d ! adjust-dateTime-to-timezone(., ()), $d)",
+        "(for-each($d, adjust-dateTime-to-timezone(?, ())), $d)", "(sort(($d, $d + $u)), $d)",
+    ],
+    'date': [
+        "(adjust-date-to-timezone($d, ()), $d)", "(adjust-date-to-timezone($d), $d, timezone-from-date($d))", "(adjust-date-to-timezone($d, $u), $d)",
+        "for $x in $d return (adjust-date-to-timezone($x, ()), $x)", "($d + $u, $d)", "($u + $d, $d)", "($d - $u, $d)", "($d + $y, $d)", "($d - $d, $d)",
+        "(xs:dateTime($d), xs:date($d), $d cast as xs:gYearMonth, $d)", "(dateTime($d, xs:time('10:00:00')), $d)", "(string($d), $d)",
+    ],
+    'time': [
+        "(adjust-time-to-timezone($d, ()), $d)", "(adjust-time-to-timezone($d), $d, timezone-from-time($d))", "(adjust-time-to-timezone($d, $u), $d)",
+        "for $x in $d return (adjust-time-to-timezone($x, ()), $x)", "($d + $u, $d)", "($u + $d, $d)", "($d - $u, $d)", "($d - $d, $d)",
+        "(xs:time($d), dateTime(xs:date('2000-01-01'), $d), $d)", "(string($d), $d)",
+    ],
+    'duration': [
+        "($d + $d, $d)", "($d * 2, $d)", "(2 * $d, $d)", "($d div 2, $d)", "($d div $d, $d)", "(- $d, $d)", "(xs:dayTimeDuration($d), xs:duration($d), $d)",
+        "(xs:dateTime('2000-01-01T00:00:00') + $d, $d)", "(adjust-dateTime-to-timezone(xs:dateTime('2000-01-01T00:00:00Z'), $d), $d)",
+        "(sum(($d, $d)), avg(($d, $d)), max(($d, $d * 2)), $d)", "(hours-from-duration($d), string($d), $d)",
+    ],
+}
+
+
 def object_histories(run: Run) -> None:
-    """one Selector over histories of (implicit timezone) with the SAME caller-owned xs:dateTime / xs:date / xs:time
-    object in the variables map: every step must equal a fresh select() on a fresh object, and the caller's object must
-    be the same object in the same state (str(), tzinfo) afterwards."""
+    """one Selector over histories of (implicit timezone) with the SAME caller-owned xs:dateTime / xs:date / xs:time /
+    duration objects in the variables map, for both XSD versions of the parser and value classes of either version: every step
+    must equal a fresh select() on fresh objects, and every caller's object must be the same object, BIT-IDENTICAL
+    (class and all slots) afterwards."""
     import elementpath
     from elementpath import Selector
     from elementpath.xpath31 import XPath31Parser
-    from elementpath.datatypes import DateTime, Date, Time
-    cls = {'dateTime': DateTime, 'date': Date, 'time': Time}
+    from elementpath.datatypes import DateTime, DateTime10, Date, Date10, Time, DayTimeDuration, YearMonthDuration
+    classes = {'dateTime': (DateTime10, DateTime), 'date': (Date10, Date), 'time': (Time, Time),
+               'duration': (DayTimeDuration, DayTimeDuration)}
+    values = dict(OBJ_VALUES, duration=['PT2H', '-PT90M', 'PT0S'])
     rng = run.rng
     tzs = [None, '+05:00', '-03:00', '+00:00', '-11:30']
-    for kind, exprs in OBJ_EXPRS.items():
-        for expr in exprs:
-            for text in OBJ_VALUES[kind]:
+    for kind in classes:
+        for expr in OBJ_EXPRS.get(kind, []) + OBJ_EXPRS_EXTRA[kind]:
+            for text in values[kind]:
+                xsd = '1.1' if 'dateTimeStamp' in expr else rng.choice(['1.0', '1.1'])   # xs:dateTimeStamp is XSD 1.1 only
+                # the value class of the parser's XSD version (two thirds of the time) or of the other one
+                cls = classes[kind][(xsd == '1.1') == (rng.random() < 0.67)]
                 try:
-                    sel = Selector(expr, parser=XPath31Parser)
+                    sel = Selector(expr, parser=XPath31Parser, xsd_version=xsd)
                 except Exception as e:  # noqa
                     run.disagree(Disagreement({'xpath': expr}, canon_error(e), 'parsed', what='object-expression-rejected'))
                     break
-                obj = cls[kind].fromstring(text)
-                variables = {'d': obj}
-                state0 = (str(obj), repr(obj.tzinfo))
+
+                def fresh_vars():
+                    return {'d': cls.fromstring(text), 'u': DayTimeDuration.fromstring('PT3H'), 'y': YearMonthDuration.fromstring('P1Y2M')}
+                variables = fresh_vars()
+                objs = dict(variables)
+                state0 = {k: value_state(v) for k, v in objs.items()}
                 steps = [rng.choice(tzs) for _ in range(rng.randrange(3, 6))]
                 if len(set(steps)) < 2:
                     steps[-1] = '+05:00' if steps[0] != '+05:00' else '-03:00'
@@ -1199,13 +1274,17 @@ def object_histories(run: Run) -> None:
                         except Exception as e:  # noqa
                             return canon_error(e)
                     got = g(lambda: sel.select(make_doc(d)[0], variables=variables, timezone=tz))
-                    fresh = g(lambda: elementpath.select(make_doc(d)[0], expr, parser=XPath31Parser,
-                                                         variables={'d': cls[kind].fromstring(text)}, timezone=tz))
+                    fresh = g(lambda: elementpath.select(make_doc(d)[0], expr, parser=XPath31Parser, xsd_version=xsd,
+                                                         variables=fresh_vars(), timezone=tz))
                     run.stats.count('object-history-steps:' + kind)
-                    case = {'xpath': expr, 'd': f'xs:{kind}({text!r})', 'implicit_timezones': steps[:k + 1]}
-                    if variables.get('d') is not obj or (str(obj), repr(obj.tzinfo)) != state0:
-                        run.disagree(Disagreement(case, f'caller-object:{obj}', None, spec=f'caller-object:{state0[0]}',
-                                                  what='caller-datetime-modified', site='adjust_datetime / get_operands'))
+                    run.stats.count(f'object-history:xsd={xsd},{cls.__name__}')
+                    case = {'xpath': expr, 'd': f'{cls.__name__}.fromstring({text!r})', 'xsd_version': xsd, 'implicit_timezones': steps[:k + 1]}
+                    changed = [n for n in objs if variables.get(n) is not objs[n] or value_state(objs[n]) != state0[n]]
+                    if changed:
+                        n = changed[0]
+                        run.disagree(Disagreement(case, f'caller-object ${n}:{value_state(objs[n])[:2]}', None,
+                                                  spec=f'caller-object ${n}:{state0[n][:2]}',
+                                                  what='caller-datetime-modified', site='adjust_datetime / get_operands / casts'))
                         break
                     if got != fresh:
                         run.disagree(Disagreement(case, got, None, spec=fresh, what='reused-selector-vs-fresh',
@@ -1794,7 +1873,8 @@ def shrink(d: Disagreement) -> Disagreement:
 
     def as_case(ast, steps):
         return {'ast': tuple_deep(ast), 'merge': case['merge'], 'heap': case['heap'], 'var_sets': case['var_sets'],
-                'steps': steps, 'flavour': case.get('flavour', '')}
+                'steps': steps, 'flavour': case.get('flavour', ''), 'xsd': case.get('xsd', '1.0'),
+                'match_cls': case.get('match_cls', False)}
 
     def failing(cands):
         sub = Run(PROP, 'quick', 0)
@@ -1864,7 +1944,7 @@ def replay(run: Run, path: str) -> int:
         return 2
     case = {'ast': tuple_deep(c['ast']), 'merge': c['merge'], 'heap': [tuple(x) for x in c['heap']],
             'var_sets': [{int(k): [tuple(i) for i in v] for k, v in vs.items()} for vs in c['var_sets']],
-            'steps': c['steps'], 'flavour': 'replay'}
+            'steps': c['steps'], 'flavour': 'replay', 'xsd': c.get('xsd', '1.0'), 'match_cls': c.get('match_cls', False)}
     compare(run, [case])
     for d in run.disagreements:
         print('replayed:', d.to_json())
